@@ -15,6 +15,9 @@ PROPS = {
     "C04": dict(machine="quantity", level="exploration",
                 quick=dict(runs=16000, cap=60, selftest=150),
                 thorough=dict(runs=400000, cap=900, selftest=1500)),
+    "C20": dict(machine="helpers", level="exploration", pure="pure_clauses",
+                quick=dict(runs=24000, cap=60, selftest=200),
+                thorough=dict(runs=600000, cap=900, selftest=2000)),
 }
 
 
@@ -28,4 +31,15 @@ def machine(name):
     if name == "quantity":
         from .m_quantity import QuantityMachine
         return QuantityMachine
+    if name == "helpers":
+        from .m_helpers import HelpersMachine
+        return HelpersMachine
     raise KeyError(name)
+
+
+def pure(prop):
+    """Stateless clauses enumerated exhaustively next to the simulation (C20 only)."""
+    if PROPS[prop].get("pure") == "pure_clauses":
+        from .m_helpers import pure_clauses
+        return pure_clauses
+    return None
